@@ -30,6 +30,8 @@ def reset():
     del _terms[:]
     VAR_DEFS.clear()
     _xmemo.clear()
+    _pvs_memo.clear()
+    _pv_memo.clear()
 
 
 def nterms():
@@ -237,6 +239,46 @@ def get_vs(t):
                 if len(r) > VS_LIMIT:
                     r = None
     t.vs = r
+    return r
+
+
+_pvs_memo = {}
+_pv_memo = {}
+
+
+def get_pvs(t, w=64):
+    """partial value set: ({const: cond}, other_cond) where other_cond covers non-constant leaves; or None"""
+    if not isinstance(t, Term): return ({t: True}, False)
+    r = _pvs_memo.get(t.id)
+    if r is not None or t.id in _pvs_memo: return r
+    r = None
+    vs = get_vs(t)
+    if vs is not None:
+        r = (vs, False)
+    elif t.op == 'ite':
+        c, a, b = t.args
+        pa = get_pvs(a, w); pb = get_pvs(b, w)
+        if pa is None: pa = ({}, True)
+        if pb is None: pb = ({}, True)
+        if pa[0] or pb[0]:
+            nc = Not(c); mp = {}
+            for k, ck in pa[0].items():
+                x = And(c, ck)
+                if x is not False: mp[k] = x
+            for k, ck in pb[0].items():
+                x = And(nc, ck)
+                if x is not False: mp[k] = Or(mp[k], x) if k in mp else x
+            other = Or(And(c, pa[1]), And(nc, pb[1]))
+            if len(mp) <= VS_LIMIT: r = (mp, other)
+    elif t.op in ('add', 'and', 'or', 'xor') and not isinstance(t.args[1], Term):
+        pa = get_pvs(t.args[0], w)
+        if pa is not None and pa[0]:
+            mp = {}
+            for k, ck in pa[0].items():
+                k2 = _fold(t.op, k, t.args[1], t.w)
+                mp[k2] = Or(mp[k2], ck) if k2 in mp else ck
+            r = (mp, pa[1])
+    _pvs_memo[t.id] = r
     return r
 
 
@@ -568,8 +610,8 @@ def BVToBool(x, w=1):
 # ------------------------------------------------------------------ possible values (for addresses)
 def possible_values(t, w, limit=512, ranges=None):
     """over-approximate set of values of t or None if too many/unknown"""
-    memo = {}
     ranges = ranges or {}
+    memo = _pv_memo.setdefault(limit, {})
 
     def go(x, xw):
         if not isinstance(x, Term):
